@@ -340,6 +340,16 @@ func randomScenario(idx int, seed uint64, rng *hk.Rand) *Scenario {
 		}
 		sc.Reqs = append(sc.Reqs, r)
 	}
+	// warm-up: in a third of the scenarios the first request is a small one and the others start
+	// once the peer's first SETTINGS frame is in force, so that uploads begin under the peer's
+	// limits (scratch buffer, frame size, stream limit) and the script changes them mid-body
+	if len(sc.Reqs) > 1 && rng.Chance(35) {
+		sc.Reqs[0] = ReqSpec{Upload: -1, RespSize: 1, RespChunk: 16384, App: appReadAll}
+		for i := 1; i < len(sc.Reqs); i++ {
+			sc.Reqs[i].StartDelayUs += 30000
+		}
+		sc.Kind = "rand-warm"
+	}
 	// mid-stream script
 	nact := rng.Intn(6)
 	cur := map[uint32]uint32{}
@@ -519,6 +529,63 @@ func specialScenarios(start int, seed uint64, thorough bool) []*Scenario {
 			{Upload: -1, RespSize: 20000, RespChunk: 16384, App: appReadAll},
 		}
 		add(sc)
+	}
+	// S8: settings persist until changed. The peer's first SETTINGS frame limits the connection
+	// to 1 (2) concurrent streams; a later frame that only changes INITIAL_WINDOW_SIZE (or is
+	// empty) must not lift that limit: requests that start while a slow upload is still open
+	// have to wait (strict) or fail over to a dial the harness refuses (non-strict).
+	for _, strict := range []bool{true, false} {
+		for _, lim := range []uint32{1, 2} {
+			sc := defaultScenario(0, seed, fmt.Sprintf("S8-max-streams-persists-%d-strict=%v", lim, strict))
+			sc.Strict = strict
+			sc.PeerSettings = [][2]uint32{{3, lim}, {4, 20000}}
+			sc.InitConnWU = 1 << 20
+			sc.GrantOnTick = true
+			sc.TickUs = 2000
+			sc.Incs = []uint32{4097, 7000}
+			sc.LowStream, sc.LowConn = 1, 1
+			sc.Reqs = []ReqSpec{
+				{Upload: 150000, RespSize: 1, RespChunk: 16384, App: appReadAll},
+				{Upload: -1, RespSize: 1000, RespChunk: 16384, App: appReadAll, StartDelayUs: 40000},
+				{Upload: 1000, RespSize: 1000, RespChunk: 16384, App: appReadAll, StartDelayUs: 60000},
+				{Upload: -1, RespSize: 10, RespChunk: 16384, App: appReadAll, StartDelayUs: 80000},
+			}
+			if lim == 2 {
+				sc.Reqs = append(sc.Reqs, ReqSpec{Upload: 120000, RespSize: 1, RespChunk: 16384, App: appReadAll})
+			}
+			sc.Actions = []Action{
+				{TrigUp: 10000, TrigTicks: 10, Kind: "settings", Settings: [][2]uint32{{4, 30000}}},
+				{TrigUp: 30000, TrigTicks: 10, Kind: "settings", Settings: [][2]uint32{}},
+				{TrigUp: 50000, TrigTicks: 10, Kind: "settings", Settings: [][2]uint32{{5, 32768}}},
+			}
+			add(sc)
+		}
+	}
+	// S9: the peer LOWERS MAX_FRAME_SIZE in the middle of an upload that started under the
+	// larger limit (warm-up request first), and does not raise it again: every DATA frame after
+	// the ACK obeys the new limit. Variant "blocked": the upload sits on an exhausted stream
+	// window with a large chunk in hand when the SETTINGS frame arrives; the window opens
+	// only after it.
+	for _, variant := range []string{"blocked", "flowing"} {
+		for _, hi := range []uint32{65536, 32768} {
+			sc := defaultScenario(0, seed, fmt.Sprintf("S9-maxframe-lowered-mid-upload-%s-%d", variant, hi))
+			sc.InitConnWU = 1 << 22
+			sc.Incs = []uint32{65535, 65535}
+			sc.LowStream, sc.LowConn = 1, 1
+			iw := uint32(1 << 20)
+			trig := 70000
+			if variant == "blocked" {
+				iw, trig = 1000, 1000
+			}
+			sc.PeerSettings = [][2]uint32{{3, 100}, {4, iw}, {5, hi}}
+			sc.Reqs = []ReqSpec{
+				{Upload: -1, RespSize: 1, RespChunk: 16384, App: appReadAll},
+				{Upload: 200000, RespSize: 1, RespChunk: 16384, App: appReadAll, StartDelayUs: 40000},
+				{Upload: 150000, UnknownLen: true, RespSize: 1, RespChunk: 16384, App: appReadAll, StartDelayUs: 40000},
+			}
+			sc.Actions = []Action{{TrigUp: trig, TrigTicks: 400, Kind: "settings", Settings: [][2]uint32{{5, 16384}}}}
+			add(sc)
+		}
 	}
 	// S4: SETTINGS applied+acked between awaitFlowControl and the DATA write.
 	reps := 2
